@@ -8,9 +8,16 @@ open LZ4V.Model
 
 def judgePlacedStream (r : Rec) : List (String × String) × List String := Id.run do
   let nops := r.nat 0
-  let mut S : FastX.XState := {}
+  -- the state the life starts from (a fresh stream, or the real state dumped in the middle of a long life)
+  let tb := r.bytes 1
+  let tbl0 : Array Nat := if tb.size > 0 then (Array.range LZ4V.Gen.LZ4_HASH_SIZE_U32).map (fun i => (tb.data.getD (4*i) 0).toNat + 256 * (tb.data.getD (4*i+1) 0).toNat + 65536 * (tb.data.getD (4*i+2) 0).toNat + 16777216 * (tb.data.getD (4*i+3) 0).toNat)
+                         else Array.replicate LZ4V.Gen.LZ4_HASH_SIZE_U32 0
+  let mut S : FastX.XState := { tbl := tbl0, currentOffset := r.nat 2, dictAddr := r.nat 3, dict := (r.bytes 4).data, used := r.nat 5 != 0 }
   let mut fails : List (String × String) := []
-  let mut i := 1
+  -- the hypothesis of the theorems (`JX`), checked on the real state
+  if tbl0.any (fun v => v > S.currentOffset) || S.dict.size > S.currentOffset then fails := [("stream_state_invariant_broken", s!"dumped state: a table entry or dictSize={S.dict.size} exceeds currentOffset={S.currentOffset}")]
+  let mut nRenorm := 0
+  let mut i := 6
   let mut tags : List String := []
   let mut nPrefix := 0
   let mut nExt := 0
@@ -28,6 +35,7 @@ def judgePlacedStream (r : Rec) : List (String × String) × List String := Id.r
       i := i + 7
       let capN : Nat := if cap < 0 then 0 else cap.toNat
       let a := FastX.adjust S addr data.size
+      if S.currentOffset + data.size > 0x80000000 then nRenorm := nRenorm + 1
       if a.2 then nPrefix := nPrefix + 1 else nExt := nExt + 1
       let ds1 := (FastX.renorm S data.size).dict.size
       if a.1.dict.size < ds1 then
@@ -64,6 +72,6 @@ def judgePlacedStream (r : Rec) : List (String × String) × List String := Id.r
       i := i + 1
       S := FastX.reset S
   return (fails, [s!"xstream.prefix_calls.{if nPrefix == 0 then "0" else "some"}", s!"xstream.extdict_calls.{if nExt == 0 then "0" else "some"}",
-                  if nTrim > 0 then "xstream.dictionary_trimmed_by_overlap" else "xstream.no_trim", if nTiny > 0 then "xstream.tiny_dictionary_dropped" else "xstream.no_tiny"] ++ tags.eraseDups)
+                  if nTrim > 0 then "xstream.dictionary_trimmed_by_overlap" else "xstream.no_trim", if nTiny > 0 then "xstream.tiny_dictionary_dropped" else "xstream.no_tiny", if nRenorm > 0 then "xstream.index_rescaled_at_2GiB" else "xstream.no_rescale", if tb.size > 0 then "xstream.starts_from_dumped_state" else "xstream.starts_fresh"] ++ tags.eraseDups)
 
 end LZ4V.Judge
